@@ -69,6 +69,12 @@ class ZAlg:
     def lt_c(self, a, b):
         return a < b
 
+    def all_le(self, x, vs):
+        return z3.And([x <= y for y in vs])
+
+    def all_ge(self, x, vs):
+        return z3.And([x >= y for y in vs])
+
 
 class FAlg:
     """the same oracle on plain floats (used by the concrete replay)"""
@@ -115,13 +121,19 @@ class FAlg:
     def lt_c(self, a, b):
         return a < b
 
+    def all_le(self, x, vs):
+        return all(x <= y for y in vs)
+
+    def all_ge(self, x, vs):
+        return all(x >= y for y in vs)
+
 
 # ---------------------------------------------------------------- trees
 
 PREC = {'<': 1, '>': 1, '+': 2, '-': 2, '*': 3, '/': 3, '^': 4}
 POINTWISE = ('ABS', 'DIODE', 'SQRT', 'SIGN')
 SERIES = ('D', 'I', 'D2')
-AGGREGATES = ('SUM', 'AVG', 'MIN', 'MAX', 'MSE', 'VAR')
+AGGREGATES = ('SUM', 'AVG', 'MIN', 'MAX', 'MSE', 'VAR', 'ARGMIN', 'ARGMAX')
 FUNCS = POINTWISE + SERIES + AGGREGATES
 
 
@@ -334,6 +346,17 @@ def _fun(name, v, n, A):
         for x in vals[1:]:
             q = q + (x - m) * (x - m)
         r = q / c
+    elif name in ('ARGMIN', 'ARGMAX'):
+        # documented: the smallest index attaining the extremum (only defined here on NaN-free vectors)
+        if len(vals) != len(v):
+            return [_undef(A)] * n
+        r = A.const(float(len(v) - 1))
+        for i in range(len(v) - 2, -1, -1):
+            if name == 'ARGMIN':
+                best = A.all_le(v[i], v) if hasattr(A, 'all_le') else None
+            else:
+                best = A.all_ge(v[i], v)
+            r = A.ite(best, A.const(float(i)), r)
     else:
         raise ValueError(name)
     return [r] * n
